@@ -698,6 +698,17 @@ def run(prop, ops_path, impl_path, profile):
                     first = (j, opl, fails[0], il[j])
                 continue
             reg = toks[0]
+            if re.fullmatch(r"u[01]", reg):
+                # map-API view of a set register: no reference semantics here, but keep the state
+                for r2, sn in t["snaps"].items():
+                    if sn is not None:
+                        if "struct" in fam:
+                            check_struct(case, r2, sn, fam, fails)
+                        case.state[r2] = sn
+                real = [f for f in fails if not f.startswith("oracle-error")]
+                if real and first is None:
+                    first = (j, opl, real[0], il[j])
+                continue
             if not re.fullmatch(r"[ms][01]", reg) or len(toks) < 2:
                 continue
             op = toks[1]
